@@ -1,5 +1,5 @@
 (* Proofs for C18, second part: the iterators built from std adaptors *)
-From PV.Model Require Import Machine Iters ItersMore.
+From PV.Model Require Import Machine Rich Iters ItersMore.
 From PV.Spec Require Import Deque.
 From PV.Proofs Require Import BaseProofs ItersProofs.
 Ltac Zify.zify_post_hook ::= Z.div_mod_to_equations.
@@ -60,8 +60,17 @@ Section Adaptor.
   Qed.
   Lemma adaptor_count e s : prim_ok e impl abs Inv -> Inv s -> m_count impl s = Ok (lenN (abs s)).
   Proof.
-    intros Hp Hi. destruct Hprov as [_ Hc]. rewrite Hc. destruct (Hmeasure s Hi) as [H1 H2].
+    intros Hp Hi. destruct Hprov as [_ [Hc _]]. rewrite Hc. destruct (Hmeasure s Hi) as [H1 H2].
     rewrite (fwd_count_sim (m_next impl) measure abs Inv (p_next _ _ _ _ Hp) Hmeasure); [f_equal; lia|exact Hi|lia|unfold lenN; lia].
+  Qed.
+
+  (* the inherited nth_back of a double-ended adaptor: the provided loop over its own next_back *)
+  Lemma adaptor_nth_back e s k : prim_ok e impl abs Inv -> m_full impl = true -> Inv s ->
+    exists o s', m_nth_back impl s k = Ok (o, s') /\ Inv s' /\ opt_out o = snd (dq_nth_back (abs s) k) /\ abs s' = fst (dq_nth_back (abs s) k).
+  Proof.
+    intros Hp Ef Hi. destruct Hprov as [_ [_ Hb]]. rewrite (Hb Ef).
+    apply (prov_nth_back_sim (m_next_back impl) abs Inv (p_next_back _ _ _ _ Hp Ef)); [exact Hi|].
+    destruct (Hmeasure s Hi). lia.
   Qed.
 
   (* exact primitives: every call's output is literally the deque's *)
@@ -82,6 +91,9 @@ Section Adaptor.
       + exists s. auto.
     - rewrite Hh. cbn [bind fst snd]. exists s. auto.
     - rewrite (adaptor_count true s Hp Hi). cbn [bind fst snd]. exists s. auto.
+    - destruct (m_full impl) eqn:Ef.
+      + destruct (adaptor_nth_back true s k Hp Ef Hi) as [o [s' [H1 [H2 [H3 H4]]]]]. rewrite H1. cbn [bind fst snd]. rewrite H3. exists s'. auto.
+      + exists s. auto.
   Qed.
 
   Theorem adaptor_exact : prim_ok true impl abs Inv -> forall hist pool, Forall Inv pool ->
@@ -105,6 +117,7 @@ Section Adaptor.
       exists s, (OHint lo hi). split; [reflexivity|]. split; [unfold out_ok; split; assumption|]. auto.
     - rewrite (adaptor_count e s Hp Hi). cbn [bind fst snd]. exists s, (ONum (lenN (abs s))).
       split; [reflexivity|]. split; [reflexivity|]. auto.
+    - exists s, OUnsupported. cbn [fst snd]. split; [reflexivity|]. split; [reflexivity|]. auto.
   Qed.
 
   Theorem adaptor_bound e : prim_ok e impl abs Inv -> m_full impl = false -> forall hist pool, Forall Inv pool ->
@@ -123,16 +136,16 @@ End Adaptor.
 Lemma slice_prim_below {B} (bound : N) : 0 < bound -> prim_ok true (@slice_impl B) (fun l => l) (fun l => lenN l < bound).
 Proof.
   intros Hb. constructor.
-  - intros l Hl. cbn [slice_impl deleg_impl m_next]. destruct l as [|x t]; cbn [sl_next fst snd option_map dq_next].
+  - intros l Hl. cbn [slice_impl m_next]. destruct l as [|x t]; cbn [sl_next fst snd dq_next].
     + exists None, []. auto.
     + exists (Some x), t. split; [reflexivity|]. split; [rewrite lenN_cons in Hl; lia|]. auto.
-  - intros _ l Hl. cbn [slice_impl deleg_impl m_next_back]. unfold sl_next_back, dq_next_back.
-    destruct (rev l) as [|x t] eqn:Er; cbn [fst snd option_map].
+  - intros _ l Hl. cbn [slice_impl m_next_back]. unfold sl_next_back, dq_next_back.
+    destruct (rev l) as [|x t] eqn:Er; cbn [fst snd].
     + exists None, []. split; [reflexivity|]. split; [exact Hb|]. auto.
     + exists (Some x), (rev t). split; [reflexivity|]. split; [|auto].
       assert (length l = Datatypes.S (length t)) by (rewrite <- (rev_length l), Er; reflexivity).
       unfold lenN in *. rewrite rev_length. lia.
-  - intros l Hl. exists (lenN l), (Some (lenN l)). cbn [slice_impl deleg_impl m_size_hint]. unfold sl_size_hint.
+  - intros l Hl. exists (lenN l), (Some (lenN l)). cbn [slice_impl m_size_hint]. unfold sl_size_hint.
     split; [reflexivity|]. split; [lia|]. split; [lia|]. auto.
   - reflexivity.
 Qed.
@@ -148,6 +161,8 @@ Proof.
   - cbn [nseq app]. f_equal. lia.
   - change (nseq a (Datatypes.S (Datatypes.S n))) with (a :: nseq (a + 1) (Datatypes.S n)). rewrite IH. cbn [nseq app]. do 3 f_equal. lia.
 Qed.
+Lemma nseq_app_firstn n : forall a m, firstn n (nseq a (n + m)) = nseq a n.
+Proof. induction n as [|n IH]; intros a m; [reflexivity|]. cbn [Nat.add nseq firstn]. rewrite IH. reflexivity. Qed.
 Lemma nseq_skipn k : forall a n, skipn k (nseq a n) = nseq (a + N.of_nat k) (n - k).
 Proof.
   induction k as [|k IH]; intros a n.
@@ -169,17 +184,19 @@ Qed.
 Lemma lenN_range_abs s : lenN (range_abs s) = snd s - fst s.
 Proof. unfold range_abs. rewrite lenN_nseq. lia. Qed.
 
-Definition range_inv (s : range_st) : Prop := snd s < W32.
+(* a Range<u32>: both ends are u32 values (nth_back sets end := start when it runs out, so the start matters too) *)
+Definition range_inv (s : range_st) : Prop := fst s < W32 /\ snd s < W32.
 
 Lemma range_prim : prim_ok true range_impl range_abs range_inv.
 Proof.
   constructor.
   - intros [a e] Hi. cbn [range_impl m_next range_next]. destruct (a <? e) eqn:E.
-    + exists (Some a), (a + 1, e). rewrite (range_abs_lt a e) by lia. cbn [dq_next fst snd opt_out]. auto.
+    + exists (Some a), (a + 1, e). rewrite (range_abs_lt a e) by lia. cbn [dq_next fst snd opt_out].
+      split; [reflexivity|]. split; [unfold range_inv in *; cbn [fst snd] in *; lia|]. auto.
     + exists None, (a, e). rewrite (range_abs_ge a e) by lia. cbn [dq_next fst snd opt_out]. auto.
   - intros _ [a e] Hi. cbn [range_impl m_next_back range_next_back]. destruct (a <? e) eqn:E.
     + exists (Some (e - 1)), (a, e - 1). rewrite (range_abs_back a e) by lia. rewrite dq_next_back_meaning. cbn [fst snd opt_out].
-      split; [reflexivity|]. split; [unfold range_inv in *; cbn [snd] in *; lia|]. auto.
+      split; [reflexivity|]. split; [unfold range_inv in *; cbn [fst snd] in *; lia|]. auto.
     + exists None, (a, e). rewrite (range_abs_ge a e) by lia. cbn [dq_next_back rev fst snd opt_out]. auto.
   - intros [a e] Hi. cbn [range_impl m_size_hint range_size_hint]. rewrite lenN_range_abs. cbn [fst snd].
     destruct (a <? e) eqn:E.
@@ -200,12 +217,12 @@ Proof.
     exists s', (opt_out o). auto.
   - destruct (p_next_back _ _ _ _ range_prim eq_refl s Hi) as [o [s' [H1 [H2 [H3 H4]]]]]. rewrite H1. cbn [bind fst snd].
     exists s', (opt_out o). auto.
-  - destruct s as [a e]. unfold range_inv in Hi. cbn [snd] in Hi. cbn [m_nth range_impl]. unfold range_nth, forward_checked32, checked_add, dq_nth.
+  - destruct s as [a e]. unfold range_inv in Hi. cbn [fst snd] in Hi. destruct Hi as [Hia Hie]. cbn [m_nth range_impl]. unfold range_nth, forward_checked32, checked_add, dq_nth.
     rewrite lenN_range_abs. cbn [fst snd].
     destruct (e - a <=? k) eqn:Ek.
     + (* at most k items: exhausted *)
       destruct (k <? W32) eqn:E1; [destruct (a + k <? W32) eqn:E2; [destruct (a + k <? e) eqn:E3; [lia|]|]|];
-        cbn [bind fst snd]; exists (e, e), ONone; (split; [reflexivity|]; split; [reflexivity|]; split; [apply range_abs_ge; lia|exact Hi]).
+        cbn [bind fst snd]; exists (e, e), ONone; (split; [reflexivity|]; split; [reflexivity|]; split; [apply range_abs_ge; lia|split; exact Hie]).
     + assert (Hk : a + k < e) by lia.
       destruct (k <? W32) eqn:E1; [|lia]. destruct (a + k <? W32) eqn:E2; [|lia]. destruct (a + k <? e) eqn:E3; [|lia].
       assert (Hsk : skipn (N.to_nat k) (range_abs (a, e)) = (a + k) :: range_abs (a + k + 1, e)).
@@ -213,7 +230,7 @@ Proof.
         replace (N.to_nat (e - a) - N.to_nat k)%nat with (Datatypes.S (N.to_nat (e - (a + k + 1)))) by lia.
         cbn [nseq]. rewrite N2Nat.id. reflexivity. }
       rewrite Hsk. cbn [bind fst snd dq_next]. exists (a + k + 1, e), (OItem (a + k)).
-      split; [reflexivity|]. split; [reflexivity|]. split; [reflexivity|exact Hi].
+      split; [reflexivity|]. split; [reflexivity|]. split; [reflexivity|unfold range_inv; cbn [fst snd]; lia].
   - unfold m_len. rewrite Hh. cbn [bind fst snd]. rewrite N.eqb_refl. cbn [bind].
     exists s, (ONum (lenN (range_abs s))). auto.
   - rewrite Hh. cbn [bind fst snd]. exists s, (OHint (lenN (range_abs s)) (Some (lenN (range_abs s)))). auto.
@@ -221,6 +238,21 @@ Proof.
     destruct (a <? e) eqn:E; cbn [bind fst snd].
     + exists (a, e), (ONum (e - a)). auto.
     + exists (a, e), (ONum 0). split; [reflexivity|]. split; [f_equal; lia|]. auto.
+  - (* nth_back: backward_checked, then the item below it; end := start when there is no such item *)
+    destruct s as [a e]. unfold range_inv in Hi. cbn [fst snd] in Hi. destruct Hi as [Hia Hie]. cbn [m_nth_back range_impl].
+    unfold range_nth_back, backward_checked32, dq_nth_back. rewrite lenN_range_abs. cbn [fst snd].
+    destruct (e - a <=? k) eqn:Ek.
+    + destruct (k <? W32) eqn:E1; [destruct (k <=? e) eqn:E2; [destruct (a <? e - k) eqn:E3; [lia|]|]|];
+        cbn [bind fst snd]; exists (a, a), ONone; (split; [reflexivity|]; split; [reflexivity|]; split; [apply range_abs_ge; lia|split; exact Hia]).
+    + assert (Hk : a + k < e) by lia.
+      destruct (k <? W32) eqn:E1; [|lia]. destruct (k <=? e) eqn:E2; [|lia]. destruct (a <? e - k) eqn:E3; [|lia].
+      assert (Hfn : firstn (length (range_abs (a, e)) - N.to_nat k) (range_abs (a, e)) = range_abs (a, e - k - 1) ++ [e - k - 1]).
+      { unfold range_abs. cbn [fst snd]. pose proof (lenN_nseq (N.to_nat (e - a)) a) as L. unfold lenN in L.
+        replace (length (nseq a (N.to_nat (e - a))) - N.to_nat k)%nat with (Datatypes.S (N.to_nat (e - k - 1 - a))) by lia.
+        replace (N.to_nat (e - a)) with (Datatypes.S (N.to_nat (e - k - 1 - a)) + N.to_nat k)%nat by lia.
+        rewrite nseq_app_firstn, nseq_snoc. do 2 f_equal. lia. }
+      rewrite Hfn, dq_next_back_meaning. cbn [bind fst snd]. exists (a, e - k - 1), (OItem (e - k - 1)).
+      split; [reflexivity|]. split; [reflexivity|]. split; [reflexivity|unfold range_inv; cbn [fst snd]; lia].
 Qed.
 Theorem range_faithful hist pool : Forall range_inv pool ->
   m_run range_impl pool hist = Ok (run true (map range_abs pool) hist).
@@ -250,7 +282,7 @@ Section MapProofs.
     - cbn [map_impl m_full]. apply (p_full_exact _ _ _ _ Hp).
   Qed.
   Lemma map_provided : provided_nth_count (map_impl inner f measure) measure.
-  Proof. split; reflexivity. Qed.
+  Proof. split; [|split]; intros; reflexivity. Qed.
 End MapProofs.
 
 (* Zip: the deque of the zipped prefix *)
@@ -289,7 +321,7 @@ Section ZipProofs.
     - discriminate.
   Qed.
   Lemma zip_provided : provided_nth_count (zip_impl a b measure) measure.
-  Proof. split; reflexivity. Qed.
+  Proof. split; [|split]; [reflexivity|reflexivity|discriminate]. Qed.
 End ZipProofs.
 
 (* behind `impl Iterator`: the same primitives *)
@@ -302,7 +334,7 @@ Proof.
   - discriminate.
 Qed.
 Lemma erase_provided {S A} (impl : iter_impl S A) measure : provided_nth_count impl measure -> provided_nth_count (erase impl) measure.
-Proof. intros H. exact H. Qed.
+Proof. intros [H1 [H2 _]]. split; [exact H1|]. split; [exact H2|discriminate]. Qed.
 
 (* Wrap<I32, I64>: forwards next only; the provided size_hint is (0, None) *)
 Lemma wrap_prim {S A W} e (inner : iter_impl S A) (tag : A -> W) measure abs Inv :
@@ -320,7 +352,7 @@ Proof.
   - discriminate.
 Qed.
 Lemma wrap_provided {S A W} (inner : iter_impl S A) (tag : A -> W) measure : provided_nth_count (wrap_impl inner tag measure) measure.
-Proof. split; reflexivity. Qed.
+Proof. split; [|split]; [reflexivity|reflexivity|discriminate]. Qed.
 
 (* ------------------------------------------------------------------ *)
 (* 4. the shapes the library builds                                    *)
@@ -366,7 +398,7 @@ Lemma exp_names_start_abs {R} (names : list R) : lenN names < W32 ->
   range_inv (exp_names_start names) /\ range_abs (exp_names_start names) = nseq 0 (length names).
 Proof.
   intros H. unfold exp_names_start, range_inv, range_abs. cbn [fst snd]. rewrite N.mod_small by exact H.
-  split; [exact H|]. f_equal. unfold lenN. lia.
+  split; [split; [reflexivity|exact H]|]. f_equal. unfold lenN. lia.
 Qed.
 Theorem exp_names_faithful {R A} (g : N -> A) (names : list R) hist : lenN names < W32 ->
   m_run (exp_names_impl g) [exp_names_start names] hist = Ok (run false [map g (nseq 0 (length names))] hist).
@@ -469,8 +501,27 @@ Proof.
 Qed.
 
 (* slice::Iter handed out as is (Desc::iat): the delegation diagram with the identity *)
+(* every method of slice::Iter (trusted [sl_*]) against the deque, nth_back included *)
+Lemma slice_sim {B} : forall (l : list B) o, True -> is_clone o = false ->
+  exists l', m_step1 slice_impl l o = Ok (l', snd (step1 true l o)) /\ l' = fst (step1 true l o) /\ True.
+Proof.
+  intros l o _ Hc.
+  destruct o; cbn [m_step1 step1 slice_impl m_full m_next m_next_back m_nth m_size_hint m_count m_nth_back bind fst snd]; try discriminate.
+  - destruct l as [|x t]; cbn [sl_next dq_next fst snd opt_out]; eexists; repeat split.
+  - unfold sl_next_back, dq_next_back. destruct (rev l) as [|x t]; cbn [fst snd opt_out]; eexists; repeat split.
+  - unfold sl_nth, dq_nth. destruct (lenN l <=? k); [cbn [fst snd opt_out]; eexists; repeat split|].
+    destruct (skipn (N.to_nat k) l) as [|x t]; cbn [sl_next dq_next fst snd opt_out]; eexists; repeat split.
+  - unfold m_len. cbn [slice_impl m_size_hint sl_size_hint bind fst snd]. rewrite N.eqb_refl. cbn [bind]. eexists; repeat split.
+  - unfold sl_size_hint. cbn [fst snd]. eexists; repeat split.
+  - unfold sl_count. eexists; repeat split.
+  - unfold sl_nth_back, dq_nth_back. destruct (lenN l <=? k); [cbn [fst snd opt_out]; eexists; repeat split|].
+    unfold sl_next_back, dq_next_back. destruct (rev (firstn (length l - N.to_nat k) l)) as [|x t]; cbn [fst snd opt_out]; eexists; repeat split.
+Qed.
 Theorem slice_faithful {B} hist (pool : list (list B)) : m_run slice_impl pool hist = Ok (run true pool hist).
-Proof. unfold slice_impl. rewrite (deleg_faithful (fun x : B => x) hist pool). do 2 f_equal. rewrite <- (map_id pool) at 2. apply map_ext. intros l. apply map_id. Qed.
+Proof.
+  rewrite (sim_run_eq slice_impl (fun l : list B => l) (fun _ => True) slice_sim hist pool) by (apply Forall_forall; intros; exact I).
+  rewrite map_id. reflexivity.
+Qed.
 
 (* FlatMap over an outer iterator of at most one item: the items of the frontiter, then those of the item not yet taken *)
 Section FlatProofs.
@@ -524,7 +575,7 @@ Section FlatProofs.
     - discriminate.
   Qed.
   Lemma flat_provided : provided_nth_count (flat_impl inner mk measure) measure.
-  Proof. split; reflexivity. Qed.
+  Proof. split; [|split]; [reflexivity|reflexivity|discriminate]. Qed.
 End FlatProofs.
 
 (* Resources::icons / cursors: slices of fewer than 2^63 entries (so that the two parts together stay below 2^64) *)
@@ -554,6 +605,100 @@ Proof.
   intros H. destruct (icons_faithful f hist [icons_start group_dir]) as [outs [H1 H2]].
   { constructor; [|constructor]. split; [exact I|]. destruct group_dir; exact H. }
   exists outs. split; [exact H1|]. destruct group_dir; exact H2.
+Qed.
+
+(* ------------------------------------------------------------------ *)
+(* 4b. Exception::functions, SectionHeaders::iter, flags!::to_strs     *)
+
+(* Exception::functions: the Map<slice::Iter, F> itself - double-ended, exact-size, nth / count / nth_back inherited *)
+Theorem exc_functions_faithful {B A} (f : B -> A) hist (pool : list (list B)) : Forall small pool ->
+  m_run (exc_functions_impl f) pool hist = Ok (run true (map (map f) pool) hist).
+Proof. exact (entries_faithful f hist pool). Qed.
+
+(* SectionHeaders::iter: the slice::Iter over the section headers *)
+Theorem sections_iter_faithful {B} hist (pool : list (list B)) : m_run sections_iter_impl pool hist = Ok (run true pool hist).
+Proof. exact (slice_faithful hist pool). Qed.
+
+(* FilterMap: the sequence of the answers that are Some, in order *)
+Lemma fm_list_length {B A} (f : B -> option A) (l : list B) : (length (fm_list f l) <= length l)%nat.
+Proof. induction l as [|x t IH]; [cbn; lia|]. cbn [fm_list]. destruct (f x); cbn [length]; lia. Qed.
+Section FilterMapProofs.
+  Context {S B A : Type}.
+  Variables (inner : iter_impl S B) (f : B -> option A) (measure : S -> nat) (absi : S -> list B) (Invi : S -> Prop).
+  Hypothesis Hfuel : forall s, Invi s -> (length (absi s) <= measure s)%nat.
+  Lemma fm_find_sim e : prim_ok e inner absi Invi -> forall fuel s, Invi s -> (length (absi s) < fuel)%nat ->
+    exists o s', fm_find inner f fuel s = Ok (o, s') /\ Invi s' /\
+      opt_out o = snd (dq_next (fm_list f (absi s))) /\ fm_list f (absi s') = fst (dq_next (fm_list f (absi s))).
+  Proof.
+    intros Hp. induction fuel as [|fuel IH]; intros s Hi Hf; [lia|]. cbn [fm_find].
+    destruct (p_next _ _ _ _ Hp s Hi) as [o [s' [H1 [H2 [H3 H4]]]]]. rewrite H1. cbn [bind fst snd].
+    destruct (absi s) as [|x t] eqn:Ea; cbn [dq_next fst snd] in H3, H4.
+    - destruct o; [discriminate|]. exists None, s'. rewrite H4. cbn [fm_list dq_next fst snd opt_out]. auto.
+    - destruct o as [x'|]; [|discriminate]. injection H3 as ->. cbn [fm_list]. destruct (f x) as [y|].
+      + exists (Some y), s'. rewrite H4. cbn [dq_next fst snd opt_out]. auto.
+      + cbn [length] in Hf. rewrite <- H4 in Hf. destruct (IH s' H2 ltac:(lia)) as [o [s'' [G1 [G2 [G3 G4]]]]].
+        exists o, s''. rewrite <- H4. auto.
+  Qed.
+  Lemma filter_map_prim e : prim_ok e inner absi Invi ->
+    prim_ok false (filter_map_impl inner f measure) (fun s => fm_list f (absi s)) Invi.
+  Proof.
+    intros Hp. constructor.
+    - intros s Hi. cbn [filter_map_impl m_next]. unfold filter_map_next.
+      apply (fm_find_sim e Hp); [exact Hi|]. pose proof (Hfuel s Hi). lia.
+    - discriminate.
+    - intros s Hi. destruct (p_size_hint _ _ _ _ Hp s Hi) as [lo [hi [Hh [_ [Hhi _]]]]].
+      cbn [filter_map_impl m_size_hint]. unfold filter_map_size_hint. rewrite Hh. cbn [bind fst snd].
+      exists 0, hi. split; [reflexivity|]. split; [lia|]. split; [|discriminate].
+      pose proof (fm_list_length f (absi s)). destruct hi; [unfold lenN in *; lia|exact I].
+    - discriminate.
+  Qed.
+  Lemma filter_map_provided : provided_nth_count (filter_map_impl inner f measure) measure.
+  Proof. split; [|split]; [reflexivity|reflexivity|discriminate]. Qed.
+End FilterMapProofs.
+
+(* flags!::to_strs: the identifiers of the set bits that have one, by increasing bit index *)
+Lemma to_strs_measure_ok {A} (g : N -> option A) s : range_inv s ->
+  (length (fm_list g (range_abs s)) <= range_measure s)%nat /\ N.of_nat (range_measure s) < W64.
+Proof.
+  intros H. unfold range_inv in H. pose proof (fm_list_length g (range_abs s)) as L1.
+  unfold range_abs, range_measure in *.
+  pose proof (lenN_nseq (N.to_nat (snd s - fst s)) (fst s)) as L. unfold lenN in L. unfold W32, W64 in *. lia.
+Qed.
+Lemma range_fuel_ok s : range_inv s -> (length (range_abs s) <= range_measure s)%nat.
+Proof.
+  intros _. unfold range_abs, range_measure.
+  pose proof (lenN_nseq (N.to_nat (snd s - fst s)) (fst s)) as L. unfold lenN in L. lia.
+Qed.
+Theorem to_strs_all {A} (flag_str : N -> option A) (value : N) hist pool : Forall range_inv pool ->
+  exists outs, m_run (to_strs_impl flag_str value) pool hist = Ok outs /\
+               Forall2 (out_ok false) (run false (map (fun s => fm_list (to_strs_f flag_str value) (range_abs s)) pool) hist) outs.
+Proof.
+  apply (adaptor_bound (to_strs_impl flag_str value) (fun s => fm_list (to_strs_f flag_str value) (range_abs s)) range_inv range_measure
+           (filter_map_provided _ _ _) (to_strs_measure_ok _)
+           false (filter_map_prim range_impl _ range_measure range_abs range_inv range_fuel_ok true range_prim) eq_refl hist pool).
+Qed.
+Theorem to_strs_faithful {A} (flag_str : N -> option A) (value bits : N) hist : bits < W32 ->
+  exists outs, m_run (to_strs_impl flag_str value) [to_strs_start bits] hist = Ok outs /\
+               Forall2 (out_ok false) (run false [fm_list (to_strs_f flag_str value) (nseq 0 (N.to_nat bits))] hist) outs.
+Proof.
+  intros Hb. destruct (to_strs_all flag_str value hist [to_strs_start bits]) as [outs [H1 H2]].
+  { constructor; [|constructor]. unfold to_strs_start, range_inv. cbn [fst snd]. split; [reflexivity|exact Hb]. }
+  exists outs. split; [exact H1|]. cbn [map] in H2. unfold to_strs_start, range_abs in H2. cbn [fst snd] in H2.
+  rewrite N.sub_0_r in H2. exact H2.
+Qed.
+(* the item function: bit i of the value is set and the table names it *)
+Lemma to_strs_f_testbit {A} (flag_str : N -> option A) value i :
+  to_strs_f flag_str value i = if N.testbit value i then flag_str i else None.
+Proof.
+  unfold to_strs_f. rewrite N.shiftl_1_l.
+  destruct (N.testbit value i) eqn:Eb.
+  - destruct (N.land value (2 ^ i) =? 0) eqn:E; [|reflexivity]. apply N.eqb_eq in E.
+    assert (H : N.testbit (N.land value (2 ^ i)) i = false) by (rewrite E; apply N.bits_0).
+    rewrite N.land_spec, Eb, N.pow2_bits_true in H. discriminate.
+  - assert (E : N.land value (2 ^ i) = 0).
+    { apply N.bits_inj. intros n. rewrite N.land_spec, N.bits_0, N.pow2_bits_eqb.
+      destruct (N.eqb_spec i n) as [->|]; [rewrite Eb; reflexivity|apply andb_false_r]. }
+    rewrite E. reflexivity.
 Qed.
 
 (* ------------------------------------------------------------------ *)
@@ -593,3 +738,47 @@ Lemma ex_icons_run :
   /\ m_run (icons_impl (fun x : N => x + 100)) [icons_start None] [(0%nat, SizeHint); (0%nat, Next); (0%nat, Count)]
      = Ok [OHint 0 (Some 0); ONone; ONum 0].
 Proof. vm_compute. split; reflexivity. Qed.
+
+(* on an iterator that is not double-ended nth_back is not callable, in the model and in the deque alike, exactly as next_back *)
+Lemma nth_back_unsupported {S A} (impl : iter_impl S A) (s : S) (l : list A) k : m_full impl = false ->
+  m_step1 impl s (NthBack k) = Ok (s, OUnsupported) /\ step1 false l (NthBack k) = (l, OUnsupported) /\
+  m_step1 impl s NextBack = Ok (s, OUnsupported) /\ step1 false l NextBack = (l, OUnsupported).
+Proof. intros E. cbn [m_step1 step1]. rewrite E. repeat split; reflexivity. Qed.
+
+(* nth_back: histories on the double-ended families in which nth_back changes what later calls see *)
+Definition ex_nth_back_hist : list (nat * op) :=
+  [(0%nat, Clone); (0%nat, NthBack 1); (0%nat, Len); (0%nat, NextBack); (0%nat, Next); (1%nat, NthBack 5); (1%nat, Next); (1%nat, SizeHint);
+   (0%nat, NthBack 0); (0%nat, NthBack 0); (0%nat, NthBack (2 ^ 63))].
+Lemma ex_nth_back_run :
+  (* Exception::functions / Entries: Map<slice::Iter> with the inherited nth_back *)
+  m_run (exc_functions_impl (fun x : N => x + 100)) [[1; 2; 3; 4; 5]] ex_nth_back_hist
+  = Ok [OCloned; OItem 104; ONum 3; OItem 103; OItem 101; ONone; ONone; OHint 0 (Some 0); OItem 102; ONone; ONone]
+  (* the same history without the first nth_back: the later calls answer differently *)
+  /\ m_run (exc_functions_impl (fun x : N => x + 100)) [[1; 2; 3; 4; 5]] [(0%nat, Len); (0%nat, NextBack); (0%nat, Next)]
+     = Ok [ONum 5; OItem 105; OItem 101]
+  (* imports::Iter / debug::Iter (provided loop over their next_back), slice::Iter (its own nth_back), Range<u32> (backward_checked) *)
+  /\ m_run (deleg_impl (fun x : N => x + 100)) [[1; 2; 3; 4; 5]] ex_nth_back_hist
+     = Ok [OCloned; OItem 104; ONum 3; OItem 103; OItem 101; ONone; ONone; OHint 0 (Some 0); OItem 102; ONone; ONone]
+  /\ m_run (@slice_impl N) [[1; 2; 3; 4; 5]] ex_nth_back_hist
+     = Ok [OCloned; OItem 4; ONum 3; OItem 3; OItem 1; ONone; ONone; OHint 0 (Some 0); OItem 2; ONone; ONone]
+  /\ m_run range_impl [(1, 6)] ex_nth_back_hist
+     = Ok [OCloned; OItem 4; ONum 3; OItem 3; OItem 1; ONone; ONone; OHint 0 (Some 0); OItem 2; ONone; ONone]
+  (* RichIter (provided loop over RichIter::next_back) *)
+  /\ m_run rich_impl [(ex_words, ex_key)] [(0%nat, NthBack 1); (0%nat, Len); (0%nat, NextBack); (0%nat, NextBack)]
+     = Ok [OItem {| r_build := 9; r_product := 258; r_count := 0 |}; ONum 1; OItem {| r_build := 7; r_product := 7; r_count := 3 |}; ONone]
+  (* forward-only families: nth_back does not exist, exactly as next_back *)
+  /\ m_run (exp_iter_impl (fun x : N => x)) [[1; 2; 3]] [(0%nat, NthBack 1); (0%nat, NextBack); (0%nat, Len); (0%nat, Next)]
+     = Ok [OUnsupported; OUnsupported; OUnsupported; OItem 1].
+Proof. vm_compute. repeat split; reflexivity. Qed.
+
+(* to_strs: a 16-bit value with bits 1, 5, 13 set; the table names bits 0..7 and 13 only *)
+Definition ex_flag_str (i : N) : option N := if (i <? 8) || (i =? 13) then Some (1000 + i) else None.
+Lemma ex_to_strs_run :
+  m_run (to_strs_impl ex_flag_str 8226) [to_strs_start 16]
+        [(0%nat, SizeHint); (0%nat, Count); (0%nat, Clone); (0%nat, Next); (0%nat, SizeHint); (0%nat, Nth 1); (0%nat, SizeHint);
+         (1%nat, Nth 2); (1%nat, Next); (0%nat, NextBack); (0%nat, NthBack 0)]
+  = Ok [OHint 0 (Some 16); ONum 3; OCloned; OItem 1001; OHint 0 (Some 14); OItem 1013; OHint 0 (Some 2);
+        OItem 1013; ONone; OUnsupported; OUnsupported]
+  /\ fm_list (to_strs_f ex_flag_str 8226) (nseq 0 16) = [1001; 1005; 1013]
+  /\ fm_list (to_strs_f ex_flag_str 65535) (nseq 0 16) = [1000; 1001; 1002; 1003; 1004; 1005; 1006; 1007; 1013].
+Proof. vm_compute. repeat split; reflexivity. Qed.
